@@ -16,6 +16,8 @@ REGISTRY = {
     "C02": _lazy("serde_checks", "run_c02"),
     "C16": _lazy("serde_checks", "run_c16"),
     "C04": _lazy("layout_checks", "run_c04"),
+    "C05": _lazy("dbc_checks", "run_c05"),
+    "C14": _lazy("dbc_checks", "run_c14"),
     "C08": _lazy("parser_checks", "run_c08"),
     "C20": _lazy("parser_checks", "run_c20"),
     "C09": _lazy("verifier_checks", "run_c09"),
